@@ -2,8 +2,9 @@
 C08 (metric part) — NON-NEGATIVITY of the distance bodies whose generated term is not
 syntactically non-negative (`S.safeNonneg` fails because of a `log`, `sub` or `neg`), stated on
 the real semantics (`S.evalR`).  IEEE rounding is not modelled (see `Lemmas/ExprReal.lean`).
-Each theorem carries only the hypotheses its proof needs; the metric's documented domain
-(positive orthant / probability vectors) implies them.
+Hypotheses: none for the `log(1+·)` family, hassanat, cosine and dice (they hold for all real
+vectors); positive orthant for the entropy family; probability vectors for kullback_leibler,
+k_divergence and bhattacharyya (the `_of_le` variants only need `∑ v ≤ ∑ u`).
 -/
 import OpfVerif.Lemmas.ExprReal
 import OpfVerif.Gen.Distance
